@@ -63,6 +63,17 @@ def main():
         case = json.load(open(args.replay, encoding='utf-8'))
         viols = mod.replay(case['case'])
         unlisted = [v for v in viols if not _listed(v, findings)]
+        if not unlisted and case.get('job_fn') and hasattr(mod, case['job_fn']):
+            # not reproducible from the single case: re-run the whole job that produced it (the failure may depend on what the same process did before)
+            d = getattr(mod, case['job_fn'])(core.revive(case['job']))
+            d = d.dump() if isinstance(d, core.Acc) else d
+            d = d.get('acc', d) if isinstance(d, dict) and 'viol' not in d else d
+            again = [v for v in d.get('viol', []) if (v['cls'], v['symptom']) == (case['cls'], case['symptom'])]
+            keys = {tuple(k) for k, _ in d.get('vkeys', [])}
+            if again or (case['cls'], case['symptom']) in keys:
+                viols = again or [{'cls': case['cls'], 'symptom': case['symptom']}]
+                unlisted = [v for v in viols if not _listed(v, findings)]
+                print('reproduced by re-running the whole job (the failure depends on earlier calls in the same process)')
         if not args.quiet:
             for v in viols:
                 print(f"replayed: class={v['cls']} symptom={v['symptom']} listed={_listed(v, findings)}")
@@ -105,15 +116,43 @@ def main():
             with open(path, 'w', encoding='utf-8') as f:
                 json.dump(rec, f, indent=1, ensure_ascii=False, default=repr)
             replay_paths.append((k, path))
-        # confirm the first examples in a fresh process: same verdict or harness fault
+        # confirm in a fresh process: for every (class, symptom) at least one recorded example must reproduce (from the case alone, or by
+        # re-running the job that produced it).  Examples that do not reproduce are dropped; if nothing reproduces the run is a harness fault.
         if not args.no_confirm:
-            for k, path in replay_paths[:3]:
+            confirmed, unconfirmed = [], []
+            done_keys = set()
+            budget = 8
+            for k, path in replay_paths:
+                if k in done_keys or budget <= 0:
+                    continue
+                budget -= 1
                 r = subprocess.run([sys.executable, os.path.abspath(__file__), 'check', prop, '--replay', path, '--quiet'],
                                    capture_output=True, text=True, env=dict(os.environ))
-                if r.returncode != 1:
-                    print(r.stdout[-2000:], r.stderr[-2000:])
-                    print(f'HARNESS-ERROR: violation {k} did not reproduce in a fresh process ({path}); no verdict')
+                if r.returncode == 1:
+                    confirmed.append((k, path))
+                    done_keys.add(k)
+                else:
+                    unconfirmed.append((k, path, (r.stdout[-300:] + r.stderr[-300:]).strip()))
+            if not confirmed:
+                # last resort: the failure may depend on what the worker processes did before the job (state shared across calls).  Run the whole
+                # check once more in a fresh process: if the same (class, symptom) is reported again it is a property of the code, not of this run.
+                r = subprocess.run([sys.executable, os.path.abspath(__file__), 'check', prop, '--tier', args.tier, '--no-confirm'],
+                                   capture_output=True, text=True, env=dict(os.environ, VERIF_OUT_DIR=os.path.join(out_dir, 'rerun')))
+                again = {(m.group(1), m.group(2)) for m in __import__('re').finditer(r'unlisted violation class=(\S+) symptom=(\S+)', r.stdout)}
+                if r.returncode == 1 and again & set(unlisted_keys):
+                    print('note: the recorded cases do not reproduce in isolation, but a second complete run in a fresh process reports the same '
+                          'violation classes: the failure depends on earlier calls in the same process')
+                    replay_paths = [(k, p) for k, p in replay_paths if k in again]
+                    unconfirmed = []
+                else:
+                    for k, path, out in unconfirmed[:3]:
+                        print(out)
+                        print(f'HARNESS-ERROR: violation {k} did not reproduce in a fresh process ({path}); no verdict')
                     sys.exit(2)
+            for k, path, out in unconfirmed:
+                if k not in done_keys:
+                    print(f'note: an example of {k} did not reproduce in a fresh process ({path}); other violations did')
+            replay_paths = confirmed + [(k, p) for k, p in replay_paths if k not in done_keys and all(p != u[1] for u in unconfirmed)]
 
     ks = [{'class': f['cls'], 'symptom': f['symptom'], 'count': c} for (f, c) in known_seen.values()]
     ctx.extra['stale_known_findings'] = [{'class': f['cls'], 'symptom': f['symptom']} for f in stale]
